@@ -548,12 +548,19 @@ def cppcheck_files(files, opts):
     env["LC_ALL"] = "C"
     with run.WS(files) as ws:
         errf = ws.path("stderr.xml")
-        with open(errf, "wb") as ef:
-            try:
-                subprocess.run([build.cppcheck("plain"), "--xml"] + opts + sorted(files), cwd=ws.dir, env=env,
-                               stdout=subprocess.DEVNULL, stderr=ef, timeout=900)
-            except subprocess.TimeoutExpired:
-                return None, None
+        for attempt in range(60):
+            with open(errf, "wb") as ef:
+                try:
+                    subprocess.run([build.cppcheck("plain"), "--xml"] + opts + sorted(files), cwd=ws.dir, env=env,
+                                   stdout=subprocess.DEVNULL, stderr=ef, timeout=900)
+                    break
+                except subprocess.TimeoutExpired:
+                    return None, None
+                except OSError:     # binary being relinked by a concurrent build of the same variant
+                    import time
+                    time.sleep(1)
+        else:
+            return None, None
         try:
             fs = run.parse_xml(open(errf, "rb").read())
         except Exception:
@@ -677,7 +684,7 @@ def work(job):
 
 def main(tier, replay=None):
     import multiprocessing
-    ctx = Ctx("C06", tier, "model_checking", 170 if tier == "quick" else 1700, replay)
+    ctx = Ctx("C06", tier, "exploration", 170 if tier == "quick" else 1700, replay)
     build.build("plain")
     if replay:
         a = replay["artefact"]
